@@ -103,6 +103,127 @@ Proof. unfold has_text. apply existsb_app. Qed.
 
 Ltac split_piece H := destruct H as [->|(? & ? & ->)].
 
+(* ---------- the profiles' hook on the finished <edit-config> element ---------- *)
+Lemma to_base_not_bare t : is_bare_config t = false -> to_base_config t = t.
+Proof. destruct t as [q a cs|s]; cbn; [intros ->|]; reflexivity. Qed.
+
+Lemma not_bare_list l : forallb (fun t => negb (is_bare_config t)) l = true ->
+  map to_base_config l = l /\ filter is_bare_config l = [].
+Proof.
+  induction l as [|t l IH]; cbn [forallb map filter]; [split; reflexivity|].
+  intros H. apply andb_prop in H as [H1 H2]. apply negb_true_iff in H1. destruct (IH H2) as [M F].
+  rewrite H1, M, F, (to_base_not_bare t H1). split; reflexivity.
+Qed.
+
+(* when the only child that can be an un-namespaced <config> is the last one, the hook is [to_base_config] on it *)
+Lemma iosxe_transform_last q a pre c :
+  forallb (fun t => negb (is_bare_config t)) pre = true -> (length c <= 1)%nat ->
+  iosxe_transform (Elem q a (pre ++ c)) = Elem q a (pre ++ map to_base_config c).
+Proof.
+  intros P L. destruct (not_bare_list pre P) as [M F].
+  unfold iosxe_transform. rewrite filter_app, F. cbn [app].
+  destruct c as [|t [|t2 c2]]; [reflexivity| |cbn in L; exfalso; inversion L as [|? L2]; inversion L2].
+  cbn [filter map]. destruct (is_bare_config t) eqn:B.
+  - rewrite map_app, M. reflexivity.
+  - rewrite (to_base_not_bare t B). reflexivity.
+Qed.
+
+Lemma piece_not_bare l ps : piece (b_ l) ps -> forallb (fun t => negb (is_bare_config t)) ps = true.
+Proof. intros [->|(a & cs & ->)]; reflexivity. Qed.
+
+Lemma cfg_children_nodes p cfg : cfg_children p cfg = let* c := cfg_nodes cfg in POk (map (iosxe_patch p) c).
+Proof.
+  assert (N : forall l a cs, iosxe_patch p (Elem (b_ l) a cs) = Elem (b_ l) a cs \/ l = s_config).
+  { intros l a cs. unfold iosxe_patch, to_base_config. destruct (p_iosxe p); [|left; reflexivity].
+    destruct (qname_eqb (b_ l) (a_ s_config)) eqn:Q; [discriminate Q|left; reflexivity]. }
+  destruct cfg as [t|s|s ok| |e]; cbn [cfg_children cfg_nodes].
+  - destruct (config_node t); reflexivity.
+  - destruct (leaf (b_ s_configuration_text) s); cbn [pbind map]; [|reflexivity].
+    destruct (N s_config_text [] [t]) as [->|X]; [reflexivity|discriminate X].
+  - destruct ok; [|reflexivity]. destruct (leaf (b_ s_url) s) as [t|e] eqn:E; cbn [pbind map]; [|reflexivity].
+    apply leaf_ok in E. subst t. destruct (N s_url [] (match s with [] => [] | _ => [Text s] end)) as [->|X]; [reflexivity|discriminate X].
+  - reflexivity.
+  - reflexivity.
+Qed.
+
+Lemma cfg_nodes_short cfg c : cfg_nodes cfg = POk c -> (length c <= 1)%nat.
+Proof.
+  destruct cfg as [t|s|s ok| |e]; cbn [cfg_nodes]; intros H; inv H; try (injection H as <-; cbn; auto).
+Qed.
+
+(* EditConfig.request as the specification tables read it: the request without the hook, the caller's element patched *)
+Definition edit_config_patched (p : profile) (tgt : dsarg) (dop top eop : option bytes) (cfg : cfgarg) : pres tree :=
+  let* t := ds_node s_target tgt in
+  let* d := enum_node (b_ s_default_operation) dop DEFAULT_OPS in
+  let* o := enum_node (b_ s_test_option) top TEST_OPTS in
+  let* e := enum_node (b_ s_error_option) eop ERROR_OPTS in
+  let* c := cfg_children p cfg in
+  POk (Elem (b_ s_edit_config) [] (t :: d ++ o ++ e ++ c)).
+
+Lemma edit_config_node_eq p tgt dop top eop cfg :
+  edit_config_node p tgt dop top eop cfg = edit_config_patched p tgt dop top eop cfg.
+Proof.
+  unfold edit_config_node, edit_config_patched. rewrite cfg_children_nodes.
+  destruct (ds_node s_target tgt) as [t|x] eqn:Et; cbn [pbind]; [|reflexivity].
+  destruct (enum_node (b_ s_default_operation) dop DEFAULT_OPS) as [d|x] eqn:Ed; cbn [pbind]; [|reflexivity].
+  destruct (enum_node (b_ s_test_option) top TEST_OPTS) as [o|x] eqn:Eo; cbn [pbind]; [|reflexivity].
+  destruct (enum_node (b_ s_error_option) eop ERROR_OPTS) as [e|x] eqn:Ee; cbn [pbind]; [|reflexivity].
+  destruct (cfg_nodes cfg) as [c|x] eqn:Ec; cbn [pbind]; [|reflexivity].
+  f_equal. unfold transform_edit_config, iosxe_patch. destruct (p_iosxe p); [|now rewrite map_id].
+  assert (X : forall c', t :: d ++ o ++ e ++ c' = ((([t] ++ d) ++ o) ++ e) ++ c') by (intros; now rewrite <- !app_assoc).
+  rewrite !X. apply iosxe_transform_last; [|eapply cfg_nodes_short; eassumption].
+  rewrite !forallb_app. apply ds_node_ok in Et as (loc & lx & _ & ->).
+  apply enum_node_piece, piece_not_bare in Ed. apply enum_node_piece, piece_not_bare in Eo.
+  apply enum_node_piece, piece_not_bare in Ee. rewrite Ed, Eo, Ee. reflexivity.
+Qed.
+
+(* the hook in general (any tree, whatever its children are): the element's own name, attributes, the number and order of
+   its children survive; a child is either untouched or an un-namespaced <config> that became {base}config with the
+   same attributes and the same content; and with no or several such children nothing at all changes *)
+Lemma to_base_hook_child c : hook_child c (to_base_config c).
+Proof.
+  destruct c as [q a k|s]; cbn; [|left; reflexivity].
+  destruct (qname_eqb q (a_ s_config)) eqn:Q; [|left; reflexivity].
+  right. exists a, k. split; [|reflexivity]. unfold qname_eqb in Q. apply andb_prop in Q as [Q1 Q2].
+  apply beq_eq in Q1. apply beq_eq in Q2. destruct q; cbn in *; subst. reflexivity.
+Qed.
+
+Lemma c07_hook_frame : forall p q a cs,
+  exists cs', transform_edit_config p (Elem q a cs) = Elem q a cs' /\ Forall2 hook_child cs cs'
+    /\ (length (filter is_bare_config cs) <> 1%nat -> cs' = cs)
+    /\ (p_iosxe p = false -> cs' = cs).
+Proof.
+  intros p q a cs.
+  assert (Same : Forall2 hook_child cs cs) by (induction cs; constructor; [left; reflexivity|assumption]).
+  unfold transform_edit_config. destruct (p_iosxe p).
+  2:{ exists cs. repeat split; auto. }
+  unfold iosxe_transform. destruct (filter is_bare_config cs) as [|x [|y l]] eqn:F.
+  - exists cs. repeat split; auto.
+  - exists (map to_base_config cs). split; [reflexivity|]. split; [|split; [cbn; congruence|discriminate]].
+    clear. induction cs; cbn; constructor; [apply to_base_hook_child|assumption].
+  - exists cs. repeat split; auto.
+Qed.
+
+(* ... and on the request EditConfig.request builds: it is the request of the same call under a profile without the hook,
+   except that the caller's own un-namespaced <config> ROOT is in the base namespace; whatever is below that root is the same *)
+Lemma c07_hook_root_only : forall p tgt dop top eop cfg op,
+  op_node p (OEditConfig tgt dop top eop cfg) = POk op ->
+  exists pre c, cfg_nodes cfg = POk c /\ (length c <= 1)%nat
+    /\ op_node {| p_ns := p_ns p; p_iosxe := false |} (OEditConfig tgt dop top eop cfg) = POk (Elem (b_ s_edit_config) [] (pre ++ c))
+    /\ op = Elem (b_ s_edit_config) [] (pre ++ map (iosxe_patch p) c).
+Proof.
+  intros p tgt dop top eop cfg op. cbn [op_node]. rewrite !edit_config_node_eq. unfold edit_config_patched.
+  rewrite !cfg_children_nodes.
+  destruct (ds_node s_target tgt) as [t|x] eqn:Et; cbn [pbind]; [|discriminate].
+  destruct (enum_node (b_ s_default_operation) dop DEFAULT_OPS) as [d|x] eqn:Ed; cbn [pbind]; [|discriminate].
+  destruct (enum_node (b_ s_test_option) top TEST_OPTS) as [o|x] eqn:Eo; cbn [pbind]; [|discriminate].
+  destruct (enum_node (b_ s_error_option) eop ERROR_OPTS) as [e|x] eqn:Ee; cbn [pbind]; [|discriminate].
+  destruct (cfg_nodes cfg) as [c|x] eqn:Ec; cbn [pbind]; [|discriminate].
+  intros [= <-]. exists (t :: d ++ o ++ e), c. split; [reflexivity|]. split; [eapply cfg_nodes_short; eassumption|].
+  unfold iosxe_patch at 1. cbn [p_iosxe]. rewrite map_id.
+  split; cbn [app]; now rewrite <- !app_assoc.
+Qed.
+
 (* ---------- the operation element ---------- *)
 Lemma cmd_node_elem c extra t : cmd_node c extra = POk t -> exists q a cs, t = Elem q a cs.
 Proof.
@@ -111,7 +232,7 @@ Qed.
 
 Lemma op_node_elem p c t : op_node p c = POk t -> exists q a cs, t = Elem q a cs.
 Proof.
-  destruct c; cbn [op_node]; intros H; inv H;
+  destruct c; cbn [op_node]; try (rewrite edit_config_node_eq; unfold edit_config_patched); intros H; inv H;
     try (injection H as <-; eauto); try (eapply cmd_node_elem; eassumption).
 Qed.
 
@@ -135,7 +256,8 @@ Lemma c07_enum_reject : forall p mid c,
   enum_violation c = true -> exists e, build p mid c = Refused e.
 Proof.
   intros p mid c V. unfold build. destruct (op_node p c) as [op|e] eqn:E; [exfalso|eauto].
-  destruct c; cbn [enum_violation] in V; try discriminate; cbn [op_node] in E; inv E.
+  destruct c; cbn [enum_violation] in V; try discriminate; cbn [op_node] in E;
+    try (rewrite edit_config_node_eq in E; unfold edit_config_patched in E); inv E.
   - (* get *) apply wd_node_ok in E1. rewrite out_of_ok in V; [discriminate|]. destruct wd; [apply E1|exact I].
   - (* get_config *) apply wd_node_ok in E2. rewrite out_of_ok in V; [discriminate|]. destruct wd; [apply E2|exact I].
   - (* edit_config *)
@@ -190,7 +312,8 @@ Proof.
   intros p mid c t Pn R. unfold build. destruct (op_node p c) as [op|e] eqn:E; [|discriminate].
   intros [= <-]. exists op. split.
   { unfold wrap, envelope. rewrite Pn. split; [reflexivity|]. eapply op_node_elem; eassumption. }
-  unfold conforms. destruct c; cbn [schema_of]; cbn [op_node] in E; cbn [roots_qualified] in R; try exact I.
+  unfold conforms. destruct c; cbn [schema_of]; cbn [op_node] in E;
+    try (rewrite edit_config_node_eq in E; unfold edit_config_patched in E); cbn [roots_qualified] in R; try exact I.
   - (* get *) inv E. injection E as <-. apply (ofilter_piece _ _ R) in E0. pieces. cases; done_conf.
   - (* get_config *) inv E. injection E as <-. apply (ofilter_piece _ _ R) in E1. pieces. cases; done_conf.
   - (* edit_config *) inv E. injection E as <-.
